@@ -15,6 +15,7 @@ import (
 	"fmt"
 	"image"
 	"image/color"
+	"runtime/debug"
 
 	"verif/mc"
 
@@ -24,6 +25,7 @@ import (
 var chk *mc.Check
 
 func main() {
+	debug.SetGCPercent(800) // many short-lived pixel copies on 16 workers: collect less often
 	chk = mc.New("C17", "model_checking")
 	chk.Rule = "views: BFS over operation histories on the real LuminanceSource with a naive pixel-array model, state = (view size, position in the underlying image, inversion parity, pixels); non-trivial = distinct canonical states with at least two different pixel values (plus each base-luminance image). binarisers: every image of the stated finite families is enumerated once; non-trivial = distinct images containing both colours"
 	chk.Assume("base luminance formulas: Gray images use Y; RGB ints and opaque Go-image colours use the green-favouring average floor((R+2G+B)/4) (the top byte of an RGB int is ignored); a fully transparent pixel shows the white background (255); planar YUV uses the Y plane, mirrored inside the view rectangle when reverseHorizontal is set. Partly transparent pixels have no documented formula and get no oracle in the base-luminance sub-space (the value the library produced is used as the base for the view operations)")
@@ -34,6 +36,9 @@ func main() {
 	chk.Assume("black rows (both binarisers use the global one-row method): 32-bucket histogram, tallest peak, second peak by count x distance^2, NotFound when the peaks are <= 2 buckets apart, valley score (x-black)^2 x (white-x) x (tallest-count[x]) scanned from the white side, black point = valley*8; rows narrower than 3 are thresholded directly, otherwise interior pixels are black iff (4c-l-r)/2 < black point and the first and last pixel are never set (ZXing's documented edge handling). For a single-coloured row NotFound is also accepted, and if the library returns a row where the estimate finds no contrast only the black-point-independent expectation is required")
 	if chk.ReplayFile() != "" {
 		replay(chk.ReplayFile())
+		chk.Finish()
+	}
+	if only() {
 		chk.Finish()
 	}
 	runBase()
